@@ -232,6 +232,36 @@ func c17Subjects() []c17Subject {
 			return limit.NewTracedLimit(limit.NewDefaultGradient2Limit("t", nil, nil), limit.NoopLimitLogger{})
 		}),
 	}
+	// two independent instances of one type used by different goroutines (they must not share hidden state)
+	mkTwo := func(name string, f func() core.Limit) c17Subject {
+		return c17Subject{name, func() ([]c17Method, func()) {
+			a, b := limitMethods(f()), limitMethods(f())
+			ms := make([]c17Method, len(a))
+			for i := range a {
+				ma, mb := a[i], b[i]
+				ms[i] = c17Method{ma.Name, ma.Mutator, func(g, x int) {
+					if g%2 == 0 {
+						ma.Call(g, x)
+					} else {
+						mb.Call(g, x)
+					}
+				}}
+			}
+			// fresh instances are also constructed while the others are in use
+			ms = append(ms, c17Method{"Construct", true, func(g, x int) { _ = f().EstimatedLimit() }})
+			return ms, func() {}
+		}}
+	}
+	subs = append(subs,
+		mkTwo("2x gradient(probe=2)", func() core.Limit {
+			return limit.NewGradientLimitWithRegistry("t", 10, 1, 100, 0.2, nil, 2, 2, nil, nil)
+		}),
+		mkTwo("2x vegas(probe=1)", func() core.Limit {
+			return limit.NewVegasLimitWithRegistry("t", 3, nil, 20, 0.5, nil, nil, nil, nil, nil, 1, nil, nil)
+		}),
+		mkTwo("2x gradient2", func() core.Limit { return limit.NewDefaultGradient2Limit("t", nil, nil) }),
+		mkTwo("2x aimd", func() core.Limit { return limit.NewAIMDLimit("t", 10, 0.9, 1, nil) }),
+	)
 	// strategies
 	strategyMethods := func(st core.Strategy, bag *tokenBag, extra ...c17Method) []c17Method {
 		m := []c17Method{
